@@ -170,6 +170,14 @@ pub fn oracle(input: &str, st: &mut Stats) -> Verdict {
                     }
                 }
             }
+            // a second lookup (also on a clone) must give the same answers
+            for other in [conf.ingredients_info(), conf.clone().ingredients_info()] {
+                vensure!(other.len() == info.len(), "c11.lookup-not-repeatable", "a repeated ingredients_info() has {} entries, the first had {}; input {input:?}", other.len(), info.len());
+                for (k, v) in &info {
+                    let ok = other.get(k).is_some_and(|o| o.category == v.category && o.common_name == v.common_name);
+                    vensure!(ok, "c11.lookup-not-repeatable", "a repeated ingredients_info() answers differently for {k:?}; input {input:?}");
+                }
+            }
             vensure!(info.len() == names.len(), "c11.lookup-size", "ingredients_info has {} entries for {} names; input {input:?}", info.len(), names.len());
             // a lookup must not make an equal configuration unequal
             vensure!(re == *conf, "c11.equality-depends-on-lookup", "after ingredients_info() the configuration no longer equals its re-parsed copy; input {input:?}");
